@@ -661,7 +661,7 @@ func (u *Unit) execInvoke(s *State, f *Frame, x *ssa.Call) []*State {
 }
 
 func (u *Unit) applyIfaceContract(s *State, f *Frame, x *ssa.Call, ic *Contract, recv *Term, c *ssa.CallCommon, args []Value) {
-	env := &SpecEnv{u: u, s: s, names: map[string]Value{}, cf: u.V.anyContractFile()}
+	env := &SpecEnv{u: u, s: s, names: map[string]Value{}, cf: u.V.contractFileOfKey(ic.Key)}
 	all := append([]Value{{T: recv, Ty: c.Value.Type()}}, args...)
 	for i, n := range ic.Params {
 		if i < len(all) {
